@@ -45,6 +45,7 @@ func makeToken(secret string) (tok string, valid bool, name string) {
 // Admitted iff the first non-empty carrier holds a token that verifies against the current secret; a rejected
 // smoke-test request gets 401 and never reaches the protected handler.
 func VerifC15Gate() {
+	verifnd.ConcreteClock(1000000) // token lifetimes are on the clock; expiry over time is VerifC15Expiry's subject
 	secret := ""
 	switch verifnd.Choice(2) {
 	case 0:
@@ -144,4 +145,50 @@ func (v *vRecorder) WriteHeader(c int) {
 	if v.code == 0 {
 		v.code = c
 	}
+}
+
+// VerifC15Expiry: the same token presented twice on the same carrier: once while valid, once after its
+// lifetime has elapsed (the server holding the same secret or a rotated one). A verdict must never outlive the
+// token: what the library says about the token just before a request bounds what the gate may do.
+func VerifC15Expiry() {
+	verifnd.ConcreteClock(1000000) // 1 ms per clock reading; natively the real clock
+	secret := "server-secret"
+	client := hds.NewClient()
+	client.SetServerData("server-id", secret)
+	tok, _ := httpcmn.GenerateHagallUserAccessToken("app", secret, time.Second)
+	mkReq := func() *nethttp.Request {
+		if verifnd.Symbolic() {
+			verifnd.SetCarrier("header", tok)
+			return &nethttp.Request{Header: nethttp.Header{}}
+		}
+		r := httptest.NewRequest("GET", "http://relay.test/", nil)
+		r.Header.Set("Authorization", "Bearer "+tok)
+		return r
+	}
+	gate := func(phase string) {
+		r := mkReq()
+		validBefore := httpcmn.VerifyHagallUserAccessToken(tok, client.Secret()) == nil
+		err := VerifyAuthToken(context.Background(), client)(nil, r)
+		entered := 0
+		VerifyAuthTokenHandler(client, func(w nethttp.ResponseWriter, r *nethttp.Request) { entered++ })(&vRecorder{h: nethttp.Header{}}, r)
+		if !validBefore {
+			verifnd.Assert(err != nil, "C15.expiry.handshake_rejects_invalid_token", phase)
+			verifnd.Assert(entered == 0, "C15.expiry.smoketest_rejects_invalid_token", phase)
+		} else if phase == "fresh" {
+			verifnd.Assert(err == nil && entered == 1, "C15.expiry.fresh_token_admitted")
+		}
+	}
+	gate("fresh")
+	switch verifnd.Choice(3) {
+	case 0:
+		verifnd.Sleep(1500 * time.Millisecond)
+		gate("after_expiry")
+	case 1:
+		client.SetServerData("server-id", "rotated-secret")
+		gate("after_rotation")
+	case 2:
+		client.SetServerData("server-id", "")
+		gate("after_unregistration")
+	}
+	verifnd.Reach("C15.expiry.done")
 }
